@@ -1,18 +1,109 @@
-(* C25 -- Prefix storage isolates prefixes.  Property theorems only (proofs in Proofs.v). *)
+(* C25 -- Prefix storage isolates prefixes.  Property theorems only (lemmas in Proofs.v, Proofs2.v).
+   Model: coq/C25/Model.v (transcription of storage/leveldb/prefix.go and BatchRemove / Iter of db.go).
+   A state is the raw leveldb content (ascending list of key/value) plus the handles (prefix, or None
+   after Close).  [good st] = keys are byte strings, the raw content is strictly ascending, handles' prefixes
+   are byte strings; it holds in every state reachable from an empty storage (C25_reachable_good), so the
+   per-step theorems below hold along every history of operations. *)
 From Coq Require Import List NArith ZArith String Bool.
 Import ListNotations.
-From MV Require Import C25.Model C25.Proofs.
+From MV Require Import C25.Model C25.Proofs C25.Proofs2.
 
-(* goleveldb's BytesPrefix range is exactly "has the prefix", for every prefix (empty, all-0xff, ...) and
-   every key made of bytes *)
+(* goleveldb's BytesPrefix range is exactly "has the prefix": for every prefix (empty, all-0xff, ...) and
+   every byte-string key *)
 Theorem C25_prefix_range : forall p k, wf_key k ->
   (in_range (bytes_prefix p) k = true <-> is_prefix p k = true).
 Proof. intros. rewrite prefix_range; tauto. Qed.
 
-(* RemoveByPrefix deletes exactly the keys under the prefix *)
-Theorem C25_remove_by_prefix_exact : forall p s, wf_store s ->
-  remove_by_prefix p s = filter (fun kv => negb (is_prefix p (fst kv))) s.
-Proof. exact remove_by_prefix_filter. Qed.
+(* every reachable state is good, and the model's loop fuel is never exhausted *)
+Theorem C25_reachable_good : forall prefixes ops, Forall wf_key prefixes -> Forall wf_op ops ->
+  good (run (init prefixes) ops) /\ forall o, snd (step (run (init prefixes) ops) o) <> RFuel.
+Proof. intros. assert (good (run (init prefixes) ops)) by (apply run_good; auto; apply init_good; auto).
+  split; auto. intros. apply no_fuel. auto. Qed.
 
+(* writes and removals through a handle with prefix p (Put, Delete, Batch/BatchFunc, Remove; also the reads)
+   leave every key that does not start with p untouched *)
+Theorem C25_outside_unchanged : forall st o h p, good st -> through o = Some h -> handle st h = Some p ->
+  filter (fun kv => negb (is_prefix p (fst kv))) (raw (fst (step st o))) =
+  filter (fun kv => negb (is_prefix p (fst kv))) (raw st).
+Proof. intros st o h p [W _] T H. exact (outside_unchanged st o h p T H W). Qed.
+
+(* ... in particular the content under any prefix q unrelated to p (neither extends the other) *)
+Theorem C25_isolation : forall st o h p q, good st -> through o = Some h -> handle st h = Some p ->
+  is_prefix p q = false -> is_prefix q p = false ->
+  filter (fun kv => is_prefix q (fst kv)) (raw (fst (step st o))) = filter (fun kv => is_prefix q (fst kv)) (raw st).
+Proof. intros st o h p q [W _] T H A B. exact (isolation st o h p q T H W A B). Qed.
+
+(* nothing outside the prefix is observed: the output of an operation through p, and the content under p
+   afterwards, are functions of the content under p alone *)
+Theorem C25_observe_only_inside : forall st1 st2 o h p, good st1 -> good st2 -> through o = Some h ->
+  handles st1 = handles st2 -> handle st1 h = Some p ->
+  filter (fun kv => is_prefix p (fst kv)) (raw st1) = filter (fun kv => is_prefix p (fst kv)) (raw st2) ->
+  snd (step st1 o) = snd (step st2 o) /\
+  filter (fun kv => is_prefix p (fst kv)) (raw (fst (step st1 o))) =
+  filter (fun kv => is_prefix p (fst kv)) (raw (fst (step st2 o))).
+Proof. intros st1 st2 o h p [W1 [S1 _]] [W2 [S2 _]] T HS H E. exact (observe_only_inside st1 st2 o h p T HS H W1 W2 S1 S2 E). Qed.
+
+(* a closed handle changes nothing and every operation but Close fails *)
+Theorem C25_closed_handle_inert : forall st o h, through o = Some h -> handle st h = None ->
+  raw (fst (step st o)) = raw st /\ (snd (step st o) = RErr \/ o = OClose h).
+Proof. exact closed_inert. Qed.
+
+(* Iter visits exactly the entries under p whose key, with p cut off, lies in the caller's range; in storage
+   order (ascending) or reversed, up to the callback's stop; the keys handed out have p cut off *)
+Theorem C25_iter_exact : forall st h p r nr asc stop, good st -> handle st h = Some p ->
+  rewrite_range p r = Some nr ->
+  snd (step st (OIter h r asc stop)) =
+  RKVs (stop_at stop (dir asc
+     (map (fun kv => (skipn (List.length p) (fst kv), snd kv))
+          (filter (fun kv => is_prefix p (fst kv) && user_in_range r (skipn (List.length p) (fst kv))) (raw st))))).
+Proof. intros st h p r nr asc stop [W _] H R. unfold step. simpl. rewrite H. apply p_iter_exact with nr; auto. Qed.
+
+(* the only ranges Iter refuses are those with an empty non-nil bound *)
+Theorem C25_iter_range_accepted : forall p r,
+  rewrite_range p r = None <-> exists r0, r = Some r0 /\ (rstart r0 = Some [] \/ rlimit r0 = Some []).
+Proof.
+  intros p r. split.
+  - destruct r as [[st li]|]; simpl; intros; try discriminate. exists (mkRange st li). split; auto. simpl.
+    destruct st as [[|]|]; destruct li as [[|]|]; simpl in H; try discriminate; auto.
+  - intros [r0 [-> [E|E]]]; destruct r0 as [st li]; simpl in *; subst; auto. destruct st as [[|]|]; auto.
+Qed.
+
+(* RemoveByPrefix, and Remove through a handle, delete exactly the keys under the prefix *)
+Theorem C25_remove_by_prefix_exact : forall st p, good st ->
+  raw (fst (step st (ORawRemoveByPrefix p))) = filter (fun kv => negb (is_prefix p (fst kv))) (raw st) /\
+  forall h, handle st h = Some p ->
+    raw (fst (step st (ORemove h))) = filter (fun kv => negb (is_prefix p (fst kv))) (raw st).
+Proof.
+  intros st p [W _]. split.
+  - unfold step. simpl. apply remove_by_prefix_filter. auto.
+  - intros h H. unfold step. simpl. rewrite H. simpl. apply remove_by_prefix_filter. auto.
+Qed.
+
+(* BatchRemove with any batch limit other than 0 (positive: several rounds with a restart key; negative: one
+   round) deletes exactly the keys in [Start, Limit) and returns their number; limit 0 deletes nothing *)
+Theorem C25_batch_remove_exact : forall st r limit, good st ->
+  let rr := match r with Some r => r | None => mkRange None None end in
+  step st (ORawBatchRemove r limit) =
+    if Z.eqb limit 0 then (st, RNum 0)
+    else (mkState (filter (fun kv => negb (in_range rr (fst kv))) (raw st)) (handles st),
+          RNum (Z.of_nat (List.length (filter (fun kv => in_range rr (fst kv)) (raw st))))).
+Proof.
+  intros st r limit [W [S _]] rr. unfold step. fold rr.
+  destruct (Z.eqb limit 0) eqn:E.
+  - apply Z.eqb_eq in E. subst. rewrite batch_remove_zero. destruct st; auto.
+  - apply Z.eqb_neq in E. rewrite batch_remove_exact; auto.
+Qed.
+
+(* non-vacuity *)
+Local Open Scope string_scope.
 Example C25_example_limit : prefix_limit [97; 98; 255]%N = Some [97; 99]%N /\ prefix_limit [255; 255]%N = None.
 Proof. split; reflexivity. Qed.
+
+Example C25_example_history :
+  let st := run (init [[97; 98]; [97]; [255; 255]]%N)
+     [ORawPut [97; 99]%N "01"; OPut 0 [0]%N "02"; OPut 1 [98; 0]%N "03"; OPut 2 [255]%N "04"; OPut 0 [255]%N "05"] in
+  raw st = [([97; 98; 0], "03"); ([97; 98; 255], "05"); ([97; 99], "01"); ([255; 255; 255], "04")]%N /\
+  snd (step st (OIter 0 None true None)) = RKVs [([0], "03"); ([255], "05")]%N /\
+  raw (fst (step st (ORemove 0))) = [([97; 99], "01"); ([255; 255; 255], "04")]%N /\
+  snd (step st (ORawBatchRemove (Some (mkRange (Some [97]%N) (Some [98]%N))) 2)) = RNum 3.
+Proof. vm_compute. repeat split. Qed.
